@@ -112,11 +112,13 @@ CHECKS["C19"] = {
 
 CHECKS["C08"] = {
     "category": "model_checking",
-    "technique": "TLA+ BlockStore.tla checked by TLC; TLC trace validation (TraceStore.tla) of the real EngineManager + runner under a seeded driver with a driver-scheduled persistence layer",
+    "technique": "TLA+ BlockStore.tla and Epochs.tla checked by TLC; TLC trace validation (TraceStore.tla, TraceEpochs.tla) of the real EngineManager + runner under seeded drivers with a driver-scheduled persistence layer and an execution layer with a dynamic validator schedule",
     "text": "Design: every interleaving of offers, pushes, hand-outs, durable completions, side-channel jumps, pruning and restarts. Code: every quiescent "
             "observation (queued/persisted ranges, every readable block, the hand-out sequence, call results) is a TLC state checked for verified-only, "
-            "contiguity, read-back, no substitution, ordered gap-free hand-out and progress of the queue.",
-    "note": "Persistence layer = harness model (ordered, may lag/jump/prune); pre-genesis blocks; single-threaded runtime with quiescence between commands; "
+            "contiguity, read-back, no substitution, ordered gap-free hand-out and progress of the queue. Admission: externally justified vs certified blocks around "
+            "genesis.first_block, claimed epoch known / unknown, signed by the committee stored for that epoch or another, corrupted certificates; the schedule loop "
+            "(learning the pending epoch, expiration of the previous one, pruning) and restarts are explained step by step by Epochs.tla.",
+    "note": "Persistence layer = harness model (ordered, may lag/jump/prune); store driver uses pre-genesis blocks, admission driver real certificates of one-member committees; single-threaded runtime with quiescence between commands; "
             "the gossip-level requested-number guard is out of reach of this check.",
     "design_ref": "§7 C08",
 }
